@@ -1,4 +1,6 @@
 //! Conformance drivers for the original network stack (pallas-network).
+mod mux;
+mod reassembly;
 mod rollback;
 
 fn main() {
@@ -6,6 +8,8 @@ fn main() {
     match args.cmd.as_str() {
         "rollback-replay" => rollback::replay(&args),
         "rollback-trace" => rollback::trace(&args),
+        "mux-trace" => mux::trace(&args),
+        "reassembly-trace" => reassembly::trace(&args),
         other => pv_core::die(&format!("unknown sub-command {other}")),
     }
 }
